@@ -38,6 +38,7 @@ from pdfminer.pdftypes import (
     num_value,
     resolve1,
     resolve_all,
+    str_value,
     stream_value,
 )
 from pdfminer.psexceptions import PSEOF
@@ -93,18 +94,32 @@ def get_widths2(seq: Iterable[object]) -> Dict[int, Tuple[float, Point]]:
     widths: Dict[int, Tuple[float, Point]] = {}
     r: List[float] = []
     for v in seq:
+        v = resolve1(v)
         if isinstance(v, list):
             if r:
                 char1 = r[-1]
-                for i, (w, vx, vy) in enumerate(choplist(3, v)):
-                    widths[cast(int, char1) + i] = (w, (vx, vy))
+                metrics = [resolve1(x) for x in v]
+                if isinstance(char1, int) and all(
+                    isinstance(x, (int, float)) for x in metrics
+                ):
+                    for i, (w, vx, vy) in enumerate(choplist(3, metrics)):
+                        widths[char1 + i] = (w, (vx, vy))
+                else:
+                    log.warning(
+                        f"Skipping invalid vertical metrics for {char1}: {metrics}"
+                    )
                 r = []
         elif isinstance(v, (int, float)):  # == utils.isnumber(v)
             r.append(v)
             if len(r) == 5:
                 (char1, char2, w, vx, vy) = r
-                for i in range(cast(int, char1), cast(int, char2) + 1):
-                    widths[i] = (w, (vx, vy))
+                if isinstance(char1, int) and isinstance(char2, int):
+                    for i in range(char1, char2 + 1):
+                        widths[i] = (w, (vx, vy))
+                else:
+                    log.warning(
+                        f"Skipping invalid vertical metrics for {char1} to {char2} because either of them is not an int"
+                    )
                 r = []
     return widths
 
@@ -1098,10 +1113,10 @@ class PDFCIDFont(PDFFont):
                 raise PDFFontError("BaseFont is missing")
             self.basefont = "unknown"
         self.cidsysteminfo = dict_value(spec.get("CIDSystemInfo", {}))
-        cid_registry = resolve1(self.cidsysteminfo.get("Registry", b"unknown")).decode(
+        cid_registry = str_value(self.cidsysteminfo.get("Registry", b"unknown")).decode(
             "latin1",
         )
-        cid_ordering = resolve1(self.cidsysteminfo.get("Ordering", b"unknown")).decode(
+        cid_ordering = str_value(self.cidsysteminfo.get("Ordering", b"unknown")).decode(
             "latin1",
         )
         self.cidcoding = f"{cid_registry.strip()}-{cid_ordering.strip()}"
@@ -1125,7 +1140,7 @@ class PDFCIDFont(PDFFont):
                 CMapParser(self.unicode_map, BytesIO(strm.get_data())).run()
             else:
                 cmap_name = literal_name(spec["ToUnicode"])
-                encoding = literal_name(spec["Encoding"])
+                encoding = literal_name(spec.get("Encoding"))
                 if (
                     "Identity" in cid_ordering
                     or "Identity" in cmap_name
@@ -1152,7 +1167,12 @@ class PDFCIDFont(PDFFont):
             # writing mode: vertical
             widths2 = get_widths2(list_value(spec.get("W2", [])))
             self.disps = {cid: (vx, vy) for (cid, (_, (vx, vy))) in widths2.items()}
-            (vy, w) = resolve1(spec.get("DW2", [880, -1000]))
+            dw2 = [num_value(v) for v in list_value(spec.get("DW2", [880, -1000]))]
+            if len(dw2) != 2:
+                if strict:
+                    raise PDFFontError("DW2 is not an array of two numbers")
+                dw2 = [880, -1000]
+            (vy, w) = dw2
             self.default_disp = (None, vy)
             widths: Dict[Union[str, int], float] = {
                 cid: w for (cid, (w, _)) in widths2.items()
@@ -1163,7 +1183,7 @@ class PDFCIDFont(PDFFont):
             self.disps = {}
             self.default_disp = 0
             widths = get_widths(list_value(spec.get("W", [])))
-            default_width = spec.get("DW", 1000)
+            default_width = num_value(spec.get("DW", 1000))
         PDFFont.__init__(self, descriptor, widths, default_width=default_width)
 
     def get_cmap_from_spec(self, spec: Mapping[str, Any], strict: bool) -> CMapBase:
@@ -1190,11 +1210,14 @@ class PDFCIDFont(PDFFont):
         cmap_name = "unknown"  # default value
 
         try:
-            spec_encoding = spec["Encoding"]
+            spec_encoding = resolve1(spec["Encoding"])
             if hasattr(spec_encoding, "name"):
-                cmap_name = literal_name(spec["Encoding"])
-            else:
+                cmap_name = literal_name(spec_encoding)
+            elif isinstance(spec_encoding, (PDFStream, dict)):
                 cmap_name = literal_name(spec_encoding["CMapName"])
+            elif strict:
+                # neither the name of a predefined CMap nor a CMap stream
+                raise PDFFontError("Invalid Encoding: %r" % spec_encoding)
         except KeyError:
             if strict:
                 raise PDFFontError("Encoding is unspecified")
